@@ -7,7 +7,8 @@ import verif
 RULE = ("host configurations generated from one PRNG and built in fresh anonymous network namespaces (1-3 veth pairs, "
         "0-2 MAC-less tun devices, loopback; 0-4 IPv4 and 0-2 IPv6 addresses per interface from overlapping pools, "
         "IPv4-mapped IPv6 addresses, point-to-point addresses; 0-3 default routes: gateway/device/src-hinted/"
-        "blackhole/multipath, metrics incl. ties and >= 2^31-1); per configuration 6-8 targets (attached net/host, "
+        "blackhole/multipath, metrics incl. ties and >= 2^31-1; 0-2 IPv6 default routes with lower and higher metrics on the "
+        "same and on other interfaces); per configuration 6-8 targets (attached net/host, "
         "supernet, subnet, fixed, none, IPv6) x all 8 combinations of --iface/--srcip/--srcmac x 2 entry points "
         "(getScanRange, ipScanCmdOpts.parseOptions) + real arp / icmp command runs observed on the wire (veth peer, tun fd); non-trivial = the option "
         "code accepted the input (an interface and a source were chosen); distinct by (configuration, case number)")
@@ -201,6 +202,13 @@ def expected(cfg, o):
     return ("ok", chosen, src4, mac)
 
 
+def v6_hint(cfg, o):
+    """IPv6 default routes are no input of the selection; say so when the interface used is the one of such a route."""
+    hit = [r for r in cfg.get("routes6") or [] if r["link"] == o["ifindex"]]
+    return " (%s is the interface of an IPv6 default route, metric %d: IPv6 routes must not take part)" % (
+        o["ifname"], hit[0]["prio"]) if hit and not o["iface"] else ""
+
+
 def spec_on_impl(cfg, o):
     """Returns None or (key, reason)."""
     if o["err"] in ("wire-skip", "wire-crash"):
@@ -216,8 +224,10 @@ def spec_on_impl(cfg, o):
     exp = expected(cfg, o)
     if o["err"]:
         if exp[0] == "ok":
-            return ("spurious-error", "the scan fails with '%s' although interface %s with source %s is usable" % (
-                o["errtext"], exp[1]["name"], ".".join(str(x) for x in exp[2])))
+            return ("spurious-error", "the scan fails with '%s' although interface %s with source %s is usable%s" % (
+                o["errtext"], exp[1]["name"], ".".join(str(x) for x in exp[2]),
+                " (the host also has IPv6 default routes: %s)" % "; ".join(r["text"] for r in cfg.get("routes6") or [])
+                if cfg.get("routes6") and not o["iface"] else ""))
         return None
     # the implementation goes ahead
     on_wire = " (seen on the wire: %s)" % json.dumps(o["wire"]) if o.get("wire") else ""
@@ -244,10 +254,10 @@ def spec_on_impl(cfg, o):
     if o["entry"] == 2 and mac is None:
         return ("arp-no-mac", "the arp scan goes ahead without a source MAC")
     if exp[0] == "err":
-        return ("missing-error", "the scan goes ahead (%s, %s) although %s" % (o["ifname"], o["srcip_out"], exp[1]))
+        return ("missing-error", "the scan goes ahead (%s, %s) although %s%s" % (o["ifname"], o["srcip_out"], exp[1], v6_hint(cfg, o)))
     if exp[0] == "ok":
         if exp[1]["name"] != o["ifname"] or exp[1]["index"] != o["ifindex"]:
-            return ("wrong-iface", "interface %s is used, the property selects %s" % (o["ifname"], exp[1]["name"]))
+            return ("wrong-iface", "interface %s is used, the property selects %s%s" % (o["ifname"], exp[1]["name"], v6_hint(cfg, o)))
         if exp[2] != src:
             return ("wrong-srcip", "source %s is used, the property selects %s" % (o["srcip_out"], exp[2].hex()))
         if exp[3] != mac:
@@ -281,7 +291,8 @@ def report(ctx, cfg, o, key, why):
     tag = "cfg%d-case%d" % (cfg["id"], o["n"])
     path = ctx.write_replay(tag, {
         "property": "C17", "what": why, "key": key, "spec": spec,
-        "configuration_as_read_back": {"ifaces": cfg["ifaces"], "routes": cfg["routes"]},
+        "configuration_as_read_back": {"ifaces": cfg["ifaces"], "routes": cfg["routes"],
+                                       "ipv6_default_routes_not_an_input": cfg.get("routes6")},
         "observed": o, "replay_cmd": "bin/check C17 --replay <this file>"})
     ctx.findings.append({"key": key, "what": why, "replay": path})
 
